@@ -710,6 +710,20 @@ func TestC09(t *testing.T) {
 			if err != nil || o2 != bi.Order {
 				fail("order-stable", "recalc", fmt.Sprintf("#%d order at mining %d, now %d (err %v)", bi.Number, bi.Order, o2, err))
 			}
+			// ... and of nothing else: not of what the node currently believes the tree's size to be, with a cold cache
+			zhc := n.Zone().Slice().HeaderChain()
+			was := zhc.GetExpansionNumber()
+			for _, exp := range []uint8{was + 1, was + 3} {
+				zhc.SetCurrentExpansionNumber(exp)
+				zhc.VerifPurgeOrderCache()
+				_, o3, err3 := zhc.CalcOrder(blk)
+				zhc.SetCurrentExpansionNumber(was)
+				zhc.VerifPurgeOrderCache()
+				if err3 != nil || o3 != bi.Order {
+					fail("order-stable", "depends-on-node-expansion-number", fmt.Sprintf("#%d (header expansion number %d) has order %d; with the node's current expansion number set to %d and a cold order cache it has order %d (err %v)", bi.Number, blk.ExpansionNumber(), bi.Order, exp, o3, err3))
+					return
+				}
+			}
 			simkit.Global.Inc("edges_checked")
 		}}
 	})
